@@ -349,7 +349,47 @@ def r3_halton(ctx, repo):
     ctx.assume("primality of the sieve _primes_from_2_to and the equivalence recurrence = radical inverse are a theorem/pattern, not re-proved")
 
 
+def r4_layout(ctx, repo):
+    """the design handed out has one row per sample.  A transpose decided by comparing the SHAPE with (samples, n) cannot
+    tell the two layouts apart when samples == n: if a builder produces the factor-major layout, the square design is
+    returned as it is and every parameter's column is one sample's row"""
+    doe = repo.module("doe")
+    fn = doe.functions.get("lhs")
+    if fn is None:
+        return
+    ps = func_params(fn)
+    for st in [x for x in ast.walk(fn) if isinstance(x, ast.If)]:
+        t = st.test
+        if not (isinstance(t, ast.Compare) and len(t.ops) == 1 and isinstance(t.ops[0], (ast.NotEq, ast.Eq)) and isinstance(t.left, ast.Attribute) and t.left.attr == "shape"
+                and isinstance(t.comparators[0], ast.Tuple) and len(t.comparators[0].elts) == 2):
+            continue
+        var = access_path(t.left.value)
+        branch = st.body if isinstance(t.ops[0], ast.NotEq) else st.orelse
+        transposes = [a for a in branch if isinstance(a, ast.Assign) and access_path(a.targets[0]) == var and
+                      (text(a.value) in ("%s.T" % var, "%s.transpose()" % var, "np.transpose(%s)" % var, "%s.swapaxes(0, 1)" % var))]
+        if not transposes:
+            continue
+        want = [access_path(e) for e in t.comparators[0].elts]
+        # builders called to produce the matrix, and the order in which each of them lays out (rows, columns)
+        for a in [x for x in ast.walk(fn) if isinstance(x, ast.Assign) and access_path(x.targets[0]) == var and isinstance(x.value, ast.Call) and isinstance(x.value.func, ast.Name)]:
+            g = doe.functions.get(a.value.func.id)
+            if g is None:
+                continue
+            gp = func_params(g)
+            amap = {p_: access_path(v_) for p_, v_ in zip(gp, a.value.args)}
+            for c in [c for c in ast.walk(g) if isinstance(c, ast.Call) and (access_path(c.func) or "").split(".")[-1] in ("rand", "random", "zeros", "empty", "ones", "random_sample")]:
+                dims = c.args[0].elts if (len(c.args) == 1 and isinstance(c.args[0], ast.Tuple)) else c.args
+                if len(dims) == 2:
+                    got = [amap.get(access_path(d), access_path(d)) for d in dims]
+                    if got == list(reversed(want)) and got != want:
+                        ctx.violated("R4", "doe.lhs (layout)", where(doe, st), "%s builds the design as %s (one row per parameter) and lhs() transposes it only `if %s`: when the number of "
+                                     "samples equals the number of parameters the two layouts have the same shape, the transpose is skipped, and each parameter's column is one "
+                                     "sample's row - several samples in one stratum, other strata empty" % (g.name, text(c), text(t)), key="layout")
+                        return
+
+
 def r4_lhs(ctx, repo):
+    r4_layout(ctx, repo)
     doe = repo.module("doe")
     fn = doe.functions.get("_lhsclassic")
     if fn is None:
